@@ -34,21 +34,23 @@ Report(kind, e, r) == PrintT(<< "MISMATCH", ToJson([kind |-> kind, line |-> l, c
                                  op |-> e.op, flags |-> e.flags, max |-> e.max, args |-> e.args,
                                  observed |-> Outcome(e), expected |-> r]) >>)
 
+\* a pure (unprimed) expression: TLC caches LET definitions only in expression context,
+\* inside an action-level LET every use re-evaluates the definition
 Check(e) ==
   LET r == Spec(e)
       o == Outcome(e)
-  IN  /\ IF r.st = "abstain" \/ Strip(r) = o THEN TRUE ELSE Report("outcome", e, Strip(r))
-      /\ IF PinnedOk(e, r) THEN TRUE ELSE Report("pinned", e, Strip(r))
-      /\ IF Has(e, "same_as_prev") /\ l > 1 /\ Outcome(Rec[l - 1]) # o
-           THEN Report("same", e, Outcome(Rec[l - 1])) ELSE TRUE
-      /\ IF Has(e, "same_val_as_prev") /\ l > 1 /\ o.st = "ok" /\ Outcome(Rec[l - 1]).st = "ok"
-            /\ Outcome(Rec[l - 1]).val # o.val
-           THEN Report("sameval", e, Outcome(Rec[l - 1])) ELSE TRUE
-      /\ nab' = nab + (IF r.st = "abstain" THEN 1 ELSE 0)
+      c1 == IF r.st = "abstain" \/ Strip(r) = o THEN TRUE ELSE Report("outcome", e, Strip(r))
+      c2 == IF PinnedOk(e, r) THEN TRUE ELSE Report("pinned", e, Strip(r))
+      c3 == IF Has(e, "same_as_prev") /\ l > 1 /\ Outcome(Rec[l - 1]) # o
+              THEN Report("same", e, Outcome(Rec[l - 1])) ELSE TRUE
+      c4 == IF Has(e, "same_val_as_prev") /\ l > 1 /\ o.st = "ok" /\ Outcome(Rec[l - 1]).st = "ok"
+               /\ Outcome(Rec[l - 1]).val # o.val
+              THEN Report("sameval", e, Outcome(Rec[l - 1])) ELSE TRUE
+  IN  IF c1 /\ c2 /\ c3 /\ c4 /\ r.st = "abstain" THEN 1 ELSE 0
 
 Init == l = 1 /\ nab = 0
 Next == /\ l <= Len(Rec)
-        /\ Check(Rec[l])
+        /\ nab' = nab + Check(Rec[l])
         /\ l' = l + 1
 
 Done == l = Len(Rec) + 1 => PrintT(<< "TRACE-DONE", ToJson([lines |-> l - 1, abstained |-> nab]) >>)
